@@ -90,7 +90,7 @@ class Sub:
 
     def __init__(self, name, oracle, strategy=None, enumerate=None, n=None, shards=None,
                  nontrivial=None, classes=None, render=None, essential=(), exhaustive=False,
-                 budget_s=None):
+                 budget_s=None, validate=None, text_keys=()):
         self.name = name
         self.oracle = oracle
         self.strategy = strategy          # callable(tier) -> hypothesis strategy
@@ -103,6 +103,8 @@ class Sub:
         self.essential = tuple(essential)  # class labels that must be populated, else exit 2
         self.exhaustive = exhaustive
         self.budget_s = budget_s or {"quick": 100, "thorough": 1500}
+        self.validate = validate          # callable(case) -> bool, guards the shrinker
+        self.text_keys = tuple(text_keys)  # dict keys whose string values are free text (shrunk char-wise)
 
 
 class Recorder:
@@ -237,8 +239,8 @@ def run_shard(task):
 # ---------------------------------------------------------------------------
 # generic structural shrinker (delta debugging over JSON-like cases)
 
-def _simplify(x):
-    """Yield structurally smaller variants of a JSON-like value."""
+def _simplify(x, text_keys=(), key=None):
+    """Yield structurally smaller variants of a JSON-like value.  Strings are atomic unless their dict key is in text_keys."""
     if isinstance(x, list):
         n = len(x)
         if n > 1:
@@ -248,20 +250,24 @@ def _simplify(x):
         for i in range(n):
             yield x[:i] + x[i + 1:]
         for i in range(n):
-            for v in _simplify(x[i]):
+            for v in _simplify(x[i], text_keys, key):
                 yield x[:i] + [v] + x[i + 1:]
     elif isinstance(x, dict):
         for k in x:
-            for v in _simplify(x[k]):
+            for v in _simplify(x[k], text_keys, k):
                 y = dict(x)
                 y[k] = v
                 yield y
     elif isinstance(x, str):
+        if key not in text_keys:
+            return
         n = len(x)
         if n > 8:
             step = max(1, n // 4)
             for i in range(0, n, step):
                 yield x[:i] + x[i + step:]
+            for i in range(n):
+                yield x[:i] + x[i + 1:]
         elif n > 0:
             for i in range(n):
                 yield x[:i] + x[i + 1:]
@@ -295,7 +301,7 @@ def shrink(sub, case, sig, max_evals=300, validate=None):
     improved = True
     while improved and evals < max_evals:
         improved = False
-        for cand in _simplify(best):
+        for cand in _simplify(best, getattr(sub, 'text_keys', ())):
             if evals >= max_evals:
                 break
             if len(canon(cand)) >= len(canon(best)):
